@@ -295,7 +295,10 @@ func parentMain(id, tier string) int {
 				if r != nil {
 					merge(&total, r, sets)
 				}
-				if crash != nil {
+				if crash != nil && crash.abandoned {
+					total.Incomplete = true
+					total.Notes = append(total.Notes, fmt.Sprintf("shard %d/%s: unit %d abandoned — the worker got no CPU for %v (machine overloaded); not counted as a hang", j.shard, j.proc.name, crash.idx, 15*hangLimit()))
+				} else if crash != nil {
 					b, _ := json.Marshal(map[string]interface{}{"crashed_in": crash.desc, "unit": crash.idx, "proc": j.proc.name, "env": j.proc.env})
 					total.ViolCount[crash.class]++
 					total.Viol = append(total.Viol, violation{Class: crash.class, Case: b, Detail: crash.detail, Proc: j.proc.name})
@@ -472,11 +475,12 @@ func merge(t *result, r *result, sets map[string]map[string]bool) {
 }
 
 type crashInfo struct {
-	hung   bool
-	idx    int64
-	desc   string
-	detail string
-	class  string
+	abandoned bool // the worker made no progress but was neither blocked nor spinning (starved machine): not a verdict
+	hung      bool
+	idx       int64
+	desc      string
+	detail    string
+	class     string
 }
 
 func runWorker(exe, id, tier string, j job, nshards int, from int64, tmp string) (*result, *crashInfo) {
@@ -493,11 +497,17 @@ func runWorker(exe, id, tier string, j job, nshards int, from int64, tmp string)
 	done := make(chan error, 1)
 	go func() { done <- cmd.Wait() }()
 	// watchdog: no progress for a long time ⇒ kill and report a hang
+	// (see procstat.go: wall-clock time alone is no evidence on a busy machine)
 	var last uint64
 	lastChange := time.Now()
-	hung := false
-	tick := time.NewTicker(2 * time.Second)
+	idleSince := lastChange
+	hung, abandoned := false, false
+	hungWhy := ""
+	const tickEvery = 2 * time.Second
+	tick := time.NewTicker(tickEvery)
 	defer tick.Stop()
+	prev := sampleProcs(procTree(cmd.Process.Pid))
+	cpuAtChange := prev.runNs
 	var werr error
 wait:
 	for {
@@ -505,16 +515,42 @@ wait:
 		case werr = <-done:
 			break wait
 		case <-tick.C:
+			now := time.Now()
 			b, err := os.ReadFile(prog)
+			smp := sampleProcs(procTree(cmd.Process.Pid))
+			progressed := false
 			if err == nil && len(b) >= 16 {
 				cur := binary.LittleEndian.Uint64(b[0:8])*1000003 + binary.LittleEndian.Uint64(b[8:16])
 				if cur != last {
 					last = cur
-					lastChange = time.Now()
+					progressed = true
 				}
 			}
-			if time.Since(lastChange) > hangLimit() {
-				hung = true
+			busy := (smp.runNs + smp.waitNs) - (prev.runNs + prev.waitNs)
+			if smp.runNs+smp.waitNs < prev.runNs+prev.waitNs {
+				busy = 0 // a child has exited
+			}
+			switch {
+			case progressed || !smp.ok:
+				lastChange, idleSince, cpuAtChange = now, now, smp.runNs
+			case smp.active || time.Duration(busy) > tickEvery/4 || smp.blkio != prev.blkio:
+				idleSince = now // running, waiting for a CPU or for the disk: not blocked
+			}
+			if smp.runNs < cpuAtChange {
+				cpuAtChange = smp.runNs
+			}
+			prev = smp
+			limit := hangLimit()
+			switch {
+			case time.Duration(smp.runNs-cpuAtChange) > limit:
+				hung, hungWhy = true, fmt.Sprintf("no progress while consuming %v of CPU time (livelock)", limit)
+			case now.Sub(idleSince) > limit && now.Sub(lastChange) > limit:
+				hung, hungWhy = true, fmt.Sprintf("no progress for %v with every thread asleep (blocked)", limit)
+			case now.Sub(lastChange) > 15*limit:
+				// neither: the machine does not let the worker run; this is not a verdict about the code
+				abandoned = true
+			}
+			if hung || abandoned {
 				cmd.Process.Kill()
 			}
 		}
@@ -532,7 +568,7 @@ wait:
 		}
 	}
 	// crashed, deadlocked or hung
-	ci := &crashInfo{hung: hung}
+	ci := &crashInfo{hung: hung, abandoned: abandoned}
 	if b, err := os.ReadFile(prog); err == nil && len(b) >= 18 {
 		ci.idx = int64(binary.LittleEndian.Uint64(b[0:8]))
 		n := int(binary.LittleEndian.Uint16(b[16:18]))
@@ -545,7 +581,7 @@ wait:
 	kind := "worker process died"
 	switch {
 	case hung:
-		kind = fmt.Sprintf("no progress for %v (hang/livelock), worker killed", hangLimit())
+		kind = hungWhy + ", worker killed"
 	case strings.Contains(se, "all goroutines are asleep"):
 		kind = "deadlock: all goroutines are asleep"
 	}
